@@ -66,12 +66,24 @@ def func():
     pass
 VALUE = 5
 '''
+LAZY_TAIL = '''
+def __getattr__(name):
+    # PEP 562: module code that runs when `getattr(module, name)` does not find the name - and imports, as
+    # concurrent.futures does
+    c09canary.LAZY.append(name)
+    import c09pool_lazytarget
+    if name == "LazyErr":
+        return c09pool_lazytarget.LazyErr
+    raise AttributeError(name)
+'''
 POOL = {
+    "c09pool_lazy": POOL_BODY + LAZY_TAIL,      # imported before the cases run; has a module-level __getattr__
+    "c09pool_lazytarget": "import c09canary\nc09canary.IMPORTED.append(__name__)\nclass LazyErr(Exception):\n    pass\n",
     "c09pool_loaded": POOL_BODY,      # imported before the cases run
     "c09pool_fresh": POOL_BODY,       # importable, never left in sys.modules
     "c09pool_broken": 'import c09canary\nc09canary.IMPORTED.append(__name__)\nraise RuntimeError("refuses to import")\n',
 }
-IMPORTABLE = {"c09pool_loaded": True, "c09pool_fresh": True, "c09pool_broken": False, "c09pool_unknown": False}
+IMPORTABLE = {"c09pool_lazy": True, "c09pool_lazytarget": True, "c09pool_loaded": True, "c09pool_fresh": True, "c09pool_broken": False, "c09pool_unknown": False}
 _state = {"dir": None, "fresh_ns": None}
 
 
@@ -79,7 +91,7 @@ def canary():
     m = sys.modules.get(CANARY)
     if m is None:
         m = types.ModuleType(CANARY)
-        m.IMPORTED, m.INIT = [], []
+        m.IMPORTED, m.INIT, m.LAZY = [], [], []
         sys.modules[CANARY] = m
     return m
 
@@ -88,6 +100,7 @@ def reset_canaries():
     c = canary()
     del c.IMPORTED[:]
     del c.INIT[:]
+    del c.LAZY[:]
 
 
 def setup_pool():
@@ -106,12 +119,13 @@ def setup_pool():
         atexit.register(shutil.rmtree, d, True)   # leave nothing behind under /tmp
     import importlib
     importlib.invalidate_caches()
-    if "c09pool_loaded" not in sys.modules:
-        importlib.import_module("c09pool_loaded")
+    for name in ("c09pool_loaded", "c09pool_lazy", "concurrent.futures"):
+        if name not in sys.modules:
+            importlib.import_module(name)
     ns = {"__name__": "c09pool_fresh"}
     exec(compile(POOL_BODY, "<c09pool_fresh sender copy>", "exec"), ns)   # the sender's copy: not in sys.modules
     _state["fresh_ns"] = ns
-    for m in ("c09pool_fresh", "c09pool_broken", "c09pool_unknown"):
+    for m in ("c09pool_fresh", "c09pool_broken", "c09pool_unknown", "c09pool_lazytarget"):
         sys.modules.pop(m, None)
     reset_canaries()
 
@@ -261,11 +275,13 @@ _pool_attr_cache = {}
 
 
 def module_attr(modname, clsname, loaded, importable):
-    """getattr(sys.modules[modname], clsname, None) as the receiver would find it once modname is in sys.modules"""
+    """what the module's OWN namespace holds under clsname once modname is in sys.modules (`vars(module).get(clsname)`: no
+    module code runs here — a `getattr` would run a PEP 562 `__getattr__` and mask a lazy import made by the watched load)"""
     if type(clsname) is not str:
         return None
     if loaded:
-        return getattr(sys.modules[modname], clsname, None)
+        mod = sys.modules[modname]
+        return vars(mod).get(clsname) if isinstance(mod, types.ModuleType) else None
     if importable and modname == "c09pool_fresh":
         return _state["fresh_ns"].get(clsname)      # same source as the file the receiver imports
     return None
@@ -355,6 +371,7 @@ def environment(m, c, pairs):
     mobj = module_attr(m, c, loaded, importable) if type(m) is str else None
     bobj = getattr(builtins, c, None) if type(c) is str else None
     canary_before = (list(canary().IMPORTED), list(canary().INIT))
+    lazy = bool(loaded and isinstance(sys.modules[m], types.ModuleType) and "__getattr__" in vars(sys.modules[m]))
     mk, bk = kind_of(mobj), kind_of(bobj)
     reals = [o for o, k in ((mobj, mk), (bobj, bk)) if k == "e"]
     if len(reals) == 2 and reals[0] is not reals[1]:
@@ -362,7 +379,7 @@ def environment(m, c, pairs):
     table, slots = set_table(reals[0] if reals else None, pairs)
     c_ = canary()
     c_.IMPORTED[:], c_.INIT[:] = canary_before
-    env = ("T" if loaded else "F") + ("T" if importable else "F") + mk + bk
+    env = ("T" if loaded else "F") + ("T" if importable else "F") + mk + bk + ("T" if lazy else "F")
     return env, fmt_name(m, c), table, dict(loaded=loaded, importable=importable, slots=slots, mobj=mobj, bobj=bobj)
 
 
@@ -418,7 +435,7 @@ def cls_text(C, m, c):
         return "G " + S(C.__name__)
     if type(c) is str:
         for holder in ((sys.modules.get(m) if type(m) is str else None), ):
-            if holder is not None and getattr(holder, c, None) is C:
+            if isinstance(holder, types.ModuleType) and vars(holder).get(c) is C:
                 return "R %s %s" % (valtext.canon(m), S(c))
     return "?%s.%s" % (getattr(C, "__module__", "?"), getattr(C, "__name__", "?"))
 
@@ -584,7 +601,9 @@ def canon_model_line(line):
     if "{" in toks[1:k]:
         res["imp"] = valtext.canon(valtext.from_text(res["imp"]))
     res["init"] = int(toks[k + 1])
-    out = " ".join(toks[k + 3:])
+    assert toks[k + 2] == "code"
+    res["code"] = int(toks[k + 3])
+    out = " ".join(toks[k + 5:])
     if out.startswith("exc "):
         out = "exc " + sort_model_obj(out[4:], True)
     elif out.startswith("str "):
